@@ -2668,8 +2668,8 @@ def _stage_clips(ctx):
     ctx.run_cases(OPS["load_clip"], ex)
     ctx.exhaustive["load_clip small scope"] = ("6-frame files at 4 Hz (1 and 2 channels) and 3 Hz, every clip with "
                                                "start <= end on multiples of 1/8 s in [0, 2.5]: %d cases" % len(ex))
-    ctx.run_cases(OPS["load_clip"], _clip_cases(ctx, pool, ctx.budget(2500, 12000), grid=True))
-    ctx.run_cases(OPS["load_clip"], _clip_cases(ctx, pool, ctx.budget(1500, 8000), grid=False))
+    ctx.run_cases(OPS["load_clip"], _clip_cases(ctx, pool, ctx.budget(1600, 12000), grid=True))
+    ctx.run_cases(OPS["load_clip"], _clip_cases(ctx, pool, ctx.budget(1000, 8000), grid=False))
     ctx.run_cases(OPS["load_clip"], _malformed_clip_cases(ctx.rng, pool, ctx.budget(30, 200)))
 
 
@@ -2683,9 +2683,9 @@ def _stage_spectrograms(ctx):
     pool = getattr(ctx, "c15_pool", None) or _file_pool(ctx.rng, 10)
     if not any(b["file"]["n"] >= 100 for b in pool):
         pool = pool + [{"file": _gen_file(ctx.rng, 1000), "fsr": 8000, "te": "1"}]
-    ctx.run_cases(OPS["clip_spectrogram"], _clip_spec_cases(ctx, pool, ctx.budget(500, 3000), grid=True))
-    ctx.run_cases(OPS["clip_spectrogram"], _clip_spec_cases(ctx, pool, ctx.budget(300, 2000), grid=False))
-    ctx.run_cases(OPS["spectrogram"], _synthetic_spec_cases(ctx, ctx.budget(300, 2000)))
+    ctx.run_cases(OPS["clip_spectrogram"], _clip_spec_cases(ctx, pool, ctx.budget(340, 3000), grid=True))
+    ctx.run_cases(OPS["clip_spectrogram"], _clip_spec_cases(ctx, pool, ctx.budget(200, 2000), grid=False))
+    ctx.run_cases(OPS["spectrogram"], _synthetic_spec_cases(ctx, ctx.budget(200, 2000)))
     ex = _exhaustive_long_window_cases()
     ctx.run_cases(OPS["spectrogram"], ex)
     ctx.exhaustive["spectrogram small scope"] = ("1-6 and 8 samples at 8 Hz, every window and hop of 1 .. 10 whole samples "
@@ -2696,9 +2696,9 @@ def _stage_resample(ctx):
     pool = getattr(ctx, "c15_pool", None) or _file_pool(ctx.rng, 10)
     if not any(b["file"]["n"] >= 7 for b in pool):
         pool = pool + [{"file": _gen_file(ctx.rng, 1000), "fsr": 8000, "te": "1"}]
-    ctx.run_cases(OPS["clip_resample"], _clip_resample_cases(ctx, pool, ctx.budget(400, 2500), grid=True))
-    ctx.run_cases(OPS["clip_resample"], _clip_resample_cases(ctx, pool, ctx.budget(250, 1500), grid=False))
-    ctx.run_cases(OPS["resample"], _synthetic_resample_cases(ctx, ctx.budget(300, 2000)))
+    ctx.run_cases(OPS["clip_resample"], _clip_resample_cases(ctx, pool, ctx.budget(280, 2500), grid=True))
+    ctx.run_cases(OPS["clip_resample"], _clip_resample_cases(ctx, pool, ctx.budget(170, 1500), grid=False))
+    ctx.run_cases(OPS["resample"], _synthetic_resample_cases(ctx, ctx.budget(200, 2000)))
     ctx.run_cases(OPS["resample_chain"], _resample_chain_cases(ctx, ctx.budget(200, 1200)))
 
 
